@@ -143,6 +143,26 @@ def thread_dependence(viols):
             v["what"] += " (the same history with all calls issued by one thread shows no violation)"
 
 
+def macro_level_only(viols):
+    """C19 by differential execution: the same model is compared with the core engines (L1) and
+    with the macro-generated functions (L2).  A deviation seen at L2 for a (flavour, policy, kind)
+    for which the core engines show none means the generated function does not behave like the
+    core cache configured with the attribute values as written."""
+    def key(v):
+        p = v["sig"].split("|")
+        return (p[2], p[3], p[4].split("-after-")[0])
+    core = {key(v) for v in viols if v["sig"].split("|")[1] == "L1"}
+    for v in viols:
+        p = v["sig"].split("|")
+        if p[1] == "L2" and v.get("property") != "C19" and key(v) not in core:
+            v["also_refutes"] = v["property"]
+            p[4] = "macro-level-only:" + p[0] + ":" + p[4]
+            p[0] = "C19"
+            v["property"] = "C19"
+            v["sig"] = "|".join(p)
+            v["what"] = "generated function deviates from the core cache configured with the attributes as written (no such deviation at core level): " + v["what"]
+
+
 HARD_BOUND_KINDS = {"limit-exceeded", "memory-exceeded", "oversized-cached"}
 
 
@@ -239,7 +259,82 @@ def eng_conc(prop, tier, seed):
     return run_shards(f"{prop}-conc", cmds, 1500 if quick else 14400)
 
 
-ENGINES = {"l1": eng_l1, "l2": eng_l2, "key": eng_key, "conc": eng_conc}
+def eng_bad(prop, tier, seed):
+    """Compile oracle (C19): every invalid attribute list must fail `cargo check`, the control bin
+    with the corrected twins must pass; the generated corpus (valid lists) must build."""
+    os.makedirs(OUT, exist_ok=True)
+    out = os.path.join(OUT, f"{prop}-bad-0.json")
+    t0 = time.time()
+    rep = {"counters": {"C19": {}, "COMPILE": {}}, "distinct": {}, "samples": {"C19": []}, "violations": [], "inconclusive": [], "notes": []}
+    cnt = rep["counters"]["C19"]
+    # 1. the corpus of valid attribute lists must compile
+    r = subprocess.run(["cargo", "build", "--release", "--offline", "-p", "corpus", "--message-format=json"], cwd=HARNESS, env=ENV, stdout=subprocess.PIPE, stderr=subprocess.PIPE, text=True)
+    if r.returncode != 0:
+        errs = []
+        in_repo_or_corpus = False
+        for l in r.stdout.splitlines():
+            try:
+                m = json.loads(l)
+            except Exception:
+                continue
+            if m.get("reason") == "compiler-message" and m["message"]["level"] == "error":
+                tgt = m.get("target", {}).get("name", "")
+                errs.append({"target": tgt, "message": m["message"]["message"][:300], "span": [(s["file_name"], s["line_start"]) for s in m["message"].get("spans", [])[:2]]})
+                if tgt == "corpus":
+                    in_repo_or_corpus = True
+        if in_repo_or_corpus:
+            rep["violations"].append({"property": "C19", "sig": "C19|COMPILE|corpus|-|valid-attribute-list-does-not-compile|", "what": f"the generated corpus of valid attribute lists no longer compiles: {errs[0]['message'] if errs else ''}", "witness": {"monitor": "compile-oracle", "errors": errs[:8]}})
+        else:
+            log(r.stderr[-3000:])
+            log("HARNESS-ERROR: build of the repository crates failed (not a property verdict)")
+            sys.exit(2)
+    cnt["corpus_functions_compiled"] = 420 if r.returncode == 0 else 0
+    # 2. invalid lists / controls / borderline
+    r = subprocess.run(["cargo", "check", "--offline", "-p", "badcorpus", "--bins", "--keep-going", "--message-format=json"], cwd=HARNESS, env=ENV, stdout=subprocess.PIPE, stderr=subprocess.PIPE, text=True)
+    ok, errs = set(), {}
+    for l in r.stdout.splitlines():
+        try:
+            m = json.loads(l)
+        except Exception:
+            continue
+        if m.get("reason") == "compiler-artifact" and "bin" in m["target"]["kind"]:
+            ok.add(m["target"]["name"])
+        if m.get("reason") == "compiler-message" and m["message"]["level"] == "error":
+            errs.setdefault(m["target"]["name"], []).append(m["message"]["message"][:200])
+    cases = json.load(open(os.path.join(HARNESS, "badcorpus", "cases.json")))
+    seen_any = bool(ok) or bool(errs)
+    if not seen_any:
+        log(r.stderr[-3000:])
+        log("HARNESS-ERROR: cargo check of badcorpus produced no results")
+        sys.exit(2)
+    dist = set()
+    for c in cases:
+        compiled = c["bin"] in ok
+        rejected = c["bin"] in errs
+        if c["kind"] == "invalid":
+            cnt["invalid_lists_checked"] = cnt.get("invalid_lists_checked", 0) + 1
+            dist.add(c["bin"])
+            if compiled:
+                rep["violations"].append({"property": "C19", "sig": f"C19|COMPILE|{c['macro']}|-|invalid-attribute-list-accepted|{c['attrs']}", "what": f"#[{c['macro']}({c['attrs']})] compiles ({c['why']}); it must be rejected at compile time", "witness": {"monitor": "compile-oracle", "case": c}})
+            elif rejected:
+                cnt["invalid_lists_rejected"] = cnt.get("invalid_lists_rejected", 0) + 1
+                if len(rep["samples"]["C19"]) < 4:
+                    rep["samples"]["C19"].append({"attrs": f"#[{c['macro']}({c['attrs']})]", "verdict": "rejected: " + errs[c["bin"]][0], "control": f"#[{c['macro']}({c['corrected']})] compiles"})
+        else:
+            cnt["borderline_lists_reported"] = cnt.get("borderline_lists_reported", 0) + 1
+            rep["notes"].append(f"borderline (no verdict): #[{c['macro']}({c['attrs']})] " + ("compiles" if compiled else "is rejected"))
+    if "controls" not in ok:
+        rep["violations"].append({"property": "C19", "sig": "C19|COMPILE|controls|-|valid-attribute-list-does-not-compile|", "what": "the control bin (corrected twins of the invalid lists) does not compile: " + "; ".join(errs.get("controls", [])[:3]), "witness": {"monitor": "compile-oracle", "errors": errs.get("controls", [])[:8]}})
+    else:
+        cnt["control_lists_compiled"] = sum(1 for c in cases if c["kind"] == "invalid")
+    rep["counters"]["COMPILE"]["programs"] = len(cases) + 1
+    rep["distinct"]["C19"] = {"n": len(dist), "hashes": sorted(dist)}
+    rep["notes"].append(f"compile oracle wall {time.time()-t0:.1f}s")
+    json.dump(rep, open(out, "w"))
+    return [(out, 0, "")]
+
+
+ENGINES = {"l1": eng_l1, "l2": eng_l2, "key": eng_key, "conc": eng_conc, "bad": eng_bad}
 
 # property -> (engines, level, rule text, assumptions)
 PROPS = {}
@@ -326,6 +421,13 @@ prop("C14", ["l2", "conc"], "exploration",
 prop("C15", ["l2", "conc"], "exploration",
      CONC_RULE + L2_RULE + "Focus: global and async functions (custom names included): stats_registry::get(name) must equal the model's hit/miss counters after every call, invalidation and reset; a reset of one name must leave the others unchanged. Non-trivial = a comparison; distinct = distinct (function, hits, misses) triples.",
      COMMON_ASSUME, ("C15", "stats_comparisons"))
+prop("C19", ["bad", "l1", "l2"], "translation_validation",
+     "Translation validation by differential execution: (a) the generated corpus of 420 functions (attribute presence/values x 10 argument shapes x free fn/&self/&mut self/self x 10 return kinds x both macros) must compile; "
+     "(b) every corpus function is driven by boundary-targeted histories (limit N probed with N and N+1 keys, ttl T at T-1ns/T, max_memory with totals between the decimal and the 1024-based reading of KB, policy-separating histories, "
+     "scope with several threads, name via stats_registry, tags/events/dependencies via requests, scripted cache_if / invalidate_on) and compared with the core-level model configured from the *generator's* record of the attributes; "
+     "(c) 66 invalid attribute lists (unknown names, typos, invalid policy/scope/limit/ttl/max_memory) must fail cargo check while the corrected twin of each compiles; borderline lists are reported without verdict. "
+     + L2_RULE + "programs = corpus functions exercised + compile cases; distinct = distinct (function, cached?, cache size, second) observations plus compile cases.",
+     COMMON_ASSUME + ["'behaves like the corresponding core cache' is checked against the same model the core engines are checked against at L1"], ("C19", "invalid_lists_checked"))
 prop("C20", ["l2"], "exploration",
      L2_RULE + "Focus: #[cache_async] functions whose bodies contain 1-3 await points (gates the harness opens one at a time). The generated future is polled by hand: at every Pending the polling thread's stack of held locks "
      "(hooked lock_api: parking_lot and DashMap shard locks) must be empty and the cache listing / statistics must equal a model in which the call has only performed its lookup; while it is suspended other calls (same and different "
@@ -358,6 +460,9 @@ def write_evidence(pid, tier, seed, spec, merged, wall, n_viol):
         "inconclusive_runs": len(merged["inconclusive"]),
         "notes": merged["notes"][:40],
     }
+    if spec["level"] == "translation_validation":
+        cov["programs"] = int(counters.get("C19", {}).get("corpus_functions_compiled", 0) + counters.get("COMPILE", {}).get("programs", 0))
+        cov["disagreements_checked"] = int(counters.get("L2", {}).get("calls", 0) + counters.get("COMPILE", {}).get("programs", 0))
     ev = {
         "property_id": pid,
         "tier": tier,
@@ -477,6 +582,8 @@ def main():
                 v["sig"] = "|".join(parts)
     if pid == "C14":
         thread_dependence(merged["violations"])
+    if pid == "C19":
+        macro_level_only(merged["violations"])
     known = load_known()
     os.makedirs(REPLAYS, exist_ok=True)
     for old in glob.glob(os.path.join(REPLAYS, f"{pid}-{seed}-*.json")):
